@@ -31,7 +31,7 @@ REQUIRED_STRATA = {"recompute": 200, "early-probe": 100, "static": 1500, "histor
 
 DICT = ["a", "b", "A", "Total $", "total", "x y", "x_y", "x  y", "1st", "007", "", None, "sum", "max", "cols", "T", "name", "copy", "schema", "shape", "join", "fillna",
 	"a__1", "col3_", "col__1", "c1x", "col0_", "col1_", "_a", "a_", "__", "é", "Ünï cödé", "class", "a.b", "a-b", "a__b", "sort_by", "dtype", " a ", "a___1", "total _ 1", "rate_(_2)", "a____7", "x_ _2", "b__10_",
-	"ma\u017fs", "mass", "\u017f", "\u0131d", "\u0130x", "id", "\u212a", "stra\u00dfe", "\ufb01n", "\u00aa", "release__1_0", "Build__2_1", "v__1_0", "a__1_0", "a__1e3", "x__0x1", "n__١"]      # letters whose case fold / compatibility form is ASCII: still "other characters"
+	"ma\u017fs", "mass", "\u017f", "\u0131d", "\u0130x", "id", "\u212a", "stra\u00dfe", "\ufb01n", "\u00aa", "release__1_0", "Build__2_1", "v__1_0", "a__1_0", "a__1e3", "x__0x1", "n__١", "None", "none", " NONE ", "2024__1", "7__1", "1__2", "1", "q", "c2024__1", "3__0"]      # letters whose case fold / compatibility form is ASCII: still "other characters"
 
 _BASE = None
 _PUBLIC = None
@@ -180,6 +180,20 @@ def check_table(chk, t, names, label, spec, do_write=True, do_repr=True):
 				if not g2.ok or column_of_value(g2.value) != first:
 					chk.fail("t[i, stored name] reads the first column with that name", f"accessor/string-index-2d/{'raises' if not g2.ok else 'wrong-column'}/{tag}", f"{spec!r}: t[{nrows - 1}, {nm!r}] -> {g2!r}; first occurrence is column {first}; names {stored!r}")
 					return False
+	# ... also when several names are asked for at once: t[(name, other)] picks the first carrier of each stored name
+	strs = [nm for nm in dict.fromkeys(stored) if isinstance(nm, str) and nm != ""]
+	if nrows and len(strs) >= 1 and len(stored) != len(set(map(repr, stored))):
+		rep = next((nm for nm in strs if stored.count(nm) > 1), None)
+		if rep is not None:
+			other = next((nm for nm in strs if nm != rep), rep)
+			for key in ((rep, other), (other, rep)):
+				g3 = call(lambda: t[key])
+				if g3.ok and isinstance(g3.value, Table) and len(g3.value.cols()) == 2:
+					got = [column_of_value(c._underlying[0]) for c in g3.value.cols()]
+					exp = [stored.index(k) for k in key]
+					if got != exp:
+						chk.fail("string indexing by a stored name resolves to its first occurrence (in a selection of several names too)", f"accessor/string-index-tuple/wrong-column/{tag}", f"{spec!r}: t[{key!r}] holds columns {got}, first occurrences are {exp}; names {stored!r}")
+						return False
 	if t.column_names() != list(names):
 		chk.fail("sanitisation and accessor operations never alter the stored names", f"accessor/stored-names-changed/{tag}", f"{spec!r}: {t.column_names()!r}")
 		return False
@@ -255,6 +269,21 @@ def run_history(chk, spec):
 	if not check_table(chk, t, names, "history-initial", spec):
 		return
 	trace = []
+	for how, i_, new_ in spec.get("script", []):
+		# scripted renames first (also to / from "no name"): the accessors follow at once
+		if i_ >= len(names):
+			continue
+		if how == "view":
+			o = call(setattr, t.cols()[i_], "name", new_)
+		elif how == "view-after-dir":
+			call(dir, t)
+			o = call(setattr, t.cols()[i_], "name", new_)
+		else:
+			o = call(t.rename_column, names[i_], new_) if isinstance(names[i_], str) else None
+		if o is not None and o.ok:
+			names[i_] = new_
+		if not check_table(chk, t, names, f"after-scripted-{how}", spec):
+			return
 	for step in range(spec["nsteps"]):
 		op = rng.choice(["rename_column", "rename_columns", "view-rename", "attr-replace", "rshift", "dir", "repr", "view-rename-then-dir", "row-then-rename", "select",
 			"view-rename-then-read", "alias-then-read", "rename-to-later-name", "rshift-own-column", "rename-then-access-under-warnings-as-errors"])
@@ -470,6 +499,34 @@ def run_label_accessors(chk, spec):
 RUNNERS = {"static": run_static, "history": run_history, "label_accessors": run_label_accessors}
 RUNNERS["recompute"] = recompute.runner("C17")
 
+def run_fresh_process(chk, spec):
+	"""what a table advertises does not depend on what the process did BEFORE its first table: in a fresh interpreter, after one unrelated first action
+	(the repr of a named vector, vector arithmetic, nothing ...), columns named after public Table / Vector attributes still get accessors that shadow
+	nothing and resolve to their column"""
+	import json, os, subprocess, sys
+	from .. import bind
+	script = os.path.join(os.path.dirname(os.path.dirname(os.path.abspath(__file__))), "fresh_accessors.py")
+	try:
+		p = subprocess.run([sys.executable, script, bind.REPO_SRC, spec["first"]], capture_output=True, text=True, timeout=120, env=dict(os.environ, PYTHONDONTWRITEBYTECODE="1"))
+	except subprocess.TimeoutExpired:
+		chk.skip("fresh-process-timeout")
+		return
+	line = (p.stdout.strip().splitlines() or [""])[-1]
+	try:
+		out = json.loads(line)
+	except Exception:
+		chk.skip("fresh-process-no-report")
+		chk.counters["fresh-process:no-report"] += 1
+		return
+	chk.judged("static", ("fresh-process", spec["first"], out.get("checked")))
+	if out["problems"]:
+		kind, a, cols = out["problems"][0]
+		chk.fail("advertised accessor names never shadow a public Vector/Table method or property", f"accessor/fresh-process/{kind}/after-{spec['first']}",
+			f"{spec!r}: in a fresh interpreter whose first action was {spec['first']!r}: {kind} {a!r} in a table with columns {cols!r} ({len(out['problems'])} problems)")
+
+
+RUNNERS["fresh_process"] = run_fresh_process
+
 
 def run(chk):
 	recompute.add_cases(chk, "C17")
@@ -494,6 +551,13 @@ def run(chk):
 	import itertools as _it
 	for seq in list(_it.permutations(["1", "True", "1.0"])) + list(_it.permutations(["0", "False", "0.0"])) + [("2.5", "Fraction(5, 2)"), ("Fraction(5, 2)", "2.5"), ("3.0", "Decimal(3)"), ("Decimal(3)", "3.0"), ("2023",)]:
 		chk.case("label_accessors", {"sequence": list(seq)}, "label-accessors")
+	for start, target in ((None, "None"), (None, "none"), (None, " NONE "), ("None", None), ("none", None), (None, "col0_"), ("col0_", None), (None, ""), ("", None), (None, "x"), ("x", None), ("", "none")):
+		for how in ("view", "view-after-dir"):
+			for names in ([start, "x"], ["y", start], [start], [start, start]):
+				script = [(how, len(names) - 1 if names[0] == "y" else 0, target)]
+				chk.case("history", {"names": names, "seed": rng.randrange(10**9), "nsteps": 2, "script": script}, "history-scripted")
+	for first in ("nothing", "repr-named-vector", "repr-vector-named-like-a-method", "repr-unnamed-vector", "dir-vector", "vector-arithmetic", "repr-unnamed-table", "empty-table"):
+		chk.case("fresh_process", {"first": first}, "fresh-process")
 	for _ in range(420 if chk.quick() else 3000):
 		k = rng.choice([1, 2, 3, 4, 6])
 		names = [rng.choice(DICT) for _ in range(k)]
